@@ -230,7 +230,17 @@ class CQN(RLAlgorithm):
         :return: Loss from learning
         :rtype: float
         """
-        states, actions, rewards, next_states, dones = experiences
+        if isinstance(experiences, (tuple, list)):
+            states, actions, rewards, next_states, dones = experiences
+        else:
+            # TensorDict as returned by the replay buffers / Sampler
+            states, actions, rewards, next_states, dones = (
+                experiences["obs"],
+                experiences["action"],
+                experiences["reward"],
+                experiences["next_obs"],
+                experiences["done"],
+            )
         if self.accelerator is not None:
             actions = actions.to(self.accelerator.device)
             rewards = rewards.to(self.accelerator.device)
